@@ -121,7 +121,8 @@ def _run_config(ctx, r, idx, bench, use_app):
 			if not cmd(i, "RFMUTE %d" % r.choice((0, 1))):
 				return
 		elif x < 0.30:
-			if not cmd(i, "SETFORMAT %d" % r.choice((0, 1))):
+			# also versions the transceiver does not support: answered with a suggestion, nothing applied
+			if not cmd(i, "SETFORMAT %d" % r.choice((0, 1, 0, 1, 2, 3, 15))):
 				return
 		# one burst from a random transceiver (running or not)
 		s = r.randrange(n)
@@ -133,10 +134,34 @@ def _run_config(ctx, r, idx, bench, use_app):
 		m = {"dir": "tx", "ver": bench.models[s].ver, "fn": fn, "tn": r.randrange(8),
 		     "pwr": r.choice((0, 0, 5, 13)), "bits": bits}
 		snd = bench.models[s]
-		rcpt = bench.recipients(s, fn) if snd.running else []
-		acc, got = bench.transmit(s, m)
+		if snd.running and r.random() < 0.25:
+			# the burst is queued a few frames ahead (as L1 does) and the configuration changes before
+			# its frame comes: recipients are those tuned to the sender *in that frame*
+			for nd in bench.nodes:
+				nd.rx_data()
+			fn = (fn + r.randint(2, 6)) % trxd.HYPERFRAME
+			m["fn"] = fn
+			acc = bench.nodes[s].data_raw(trxd.encode(m)) is not None
+			cleared = snd.queue_cleared
+			for _ in range(r.randint(1, 3)):
+				j = r.randrange(n)
+				y = r.random()
+				ok = tune(j) if y < 0.6 else cmd(j, "RFMUTE %d" % r.choice((0, 1))) if y < 0.75 \
+					else cmd(j, "POWEROFF") if y < 0.85 else cmd(j, "POWERON")
+				if not ok:
+					return
+			ctx.count("deferred_bursts")
+			still = snd.running and snd.queue_cleared == cleared
+			rcpt = bench.recipients(s, fn) if (acc and still) else []
+			bench.tick(fn)
+			got = {j: nd.rx_data() for j, nd in enumerate(bench.nodes)}
+			deferred_lost = acc and not still
+		else:
+			deferred_lost = False
+			rcpt = bench.recipients(s, fn) if snd.running else []
+			acc, got = bench.transmit(s, m)
 		ctx.count("bursts")
-		if acc != snd.running:
+		if acc != snd.running and not deferred_lost:
 			ctx.violation("accept", {"history": log[-12:], "sender": names[s], "running": snd.running},
 				what = "burst %s by a transceiver that is %s" % ("accepted" if acc else "refused",
 					"powered off" if not snd.running else "running"))
@@ -147,6 +172,8 @@ def _run_config(ctx, r, idx, bench, use_app):
 			t = bench.models[j]
 			if j == s:
 				reason = "self"
+			elif deferred_lost:
+				reason = "sender_off"
 			elif not snd.running:
 				reason = "sender_off"
 			elif not t.running:
@@ -201,6 +228,7 @@ def run(ctx):
 	ctx.require("decisions_for_hopping_recipient", 100)
 	ctx.require("configs_app", 20)
 	ctx.require("configs_direct", 20)
+	ctx.require("deferred_bursts", 200)
 
 
 def replay(ctx, data):
